@@ -381,8 +381,12 @@ impl Eraser {
                         return err("hook-namespace-left", "a reference to _ddiast survives erasure (not a call _ddiast.<name>(...))");
                     }
                 }
+                let t = ty(v);
                 for (k, x) in m {
                     if k.starts_with('$') {
+                        continue;
+                    }
+                    if ty(x) == "Identifier" && ((t == "MemberExpression" && k == "property") || k == "key" || k == "label") {
                         continue;
                     }
                     self.check_no_reserved(x)?;
@@ -435,8 +439,30 @@ impl Eraser {
                 match t {
                     "BlockStatement" => {
                         let mut o = m.clone();
-                        let stmts = self.erase_stmt_list(m["stmts"].as_array().map(|a| a.as_slice()).unwrap_or(&[]))?;
-                        o.insert("stmts".into(), Value::Array(stmts));
+                        let list = m["stmts"].as_array().cloned().unwrap_or_default();
+                        // a block with its own injected `let` shadows the outer temporaries of the same names
+                        let mut saved: Vec<(String, Option<Binding>)> = vec![];
+                        for s in &list {
+                            if self.is_injected_let(s) {
+                                for d in s["declarations"].as_array().unwrap() {
+                                    let n = d["id"]["value"].as_str().unwrap_or("").to_string();
+                                    let old = self.env.remove(&n);
+                                    saved.push((n, old));
+                                }
+                                break;
+                            }
+                            if !Self::is_directive(s) {
+                                break;
+                            }
+                        }
+                        let stmts = self.erase_stmt_list(&list);
+                        for (n, old) in saved {
+                            self.env.remove(&n);
+                            if let Some(b) = old {
+                                self.env.insert(n, b);
+                            }
+                        }
+                        o.insert("stmts".into(), Value::Array(stmts?));
                         return Ok(Value::Object(o));
                     }
                     "Identifier" => {
@@ -477,7 +503,9 @@ impl Eraser {
                 keys.sort_by_key(|k| child_rank(t, k));
                 for k in keys {
                     let x = &m[k];
-                    if k.starts_with('$') {
+                    // names that are not variable references: member names, property keys, labels
+                    let is_name = ty(x) == "Identifier" && ((t == "MemberExpression" && k == "property") || k == "key" || k == "label");
+                    if k.starts_with('$') || is_name {
                         o.insert(k.clone(), x.clone());
                     } else {
                         o.insert(k.clone(), self.erase(x)?);
